@@ -572,11 +572,17 @@ func (r *Run) Finish() int {
 	for _, c := range r.hitCap {
 		fmt.Println("  cap:", c)
 	}
-	if len(r.harnessErr) > 0 {
+	if len(r.harnessErr) > 0 && len(fresh) == 0 {
 		for _, e := range r.harnessErr {
 			fmt.Println("HARNESS-ERROR:", e)
 		}
 		return 2
+	}
+	// Observations that did not repeat are not believed on their own (above). Next to other violations they
+	// are reported as what they then most likely are - the library keeping state between calls - and the
+	// other violations decide the exit code.
+	for _, e := range r.harnessErr {
+		fmt.Println("NOT-REPEATABLE (reported next to the violations below, not counted):", e)
 	}
 	ids := make([]string, 0, len(r.knownHits))
 	for id := range r.knownHits {
